@@ -348,6 +348,12 @@ def run(ctx):
                  "build_constraints(_quicker), get_objective_data, get_constraint_data of ArcBasedRoutingProblem; meaning of "
                  "the emitted combinators -- loops with exceptions, COO matrix at its dense meaning, f-strings: "
                  "coq/theories/PyArcCons.v, PyEnumCore.v, PyArc.v)")
+    import translate_arcroutes as TR     # get_routes regenerated from the source (C05_routes_gen)
+    ctx.gen_step("arcroutes", TR.translate, "C05_routes_gen",
+                 "harness/translate_arcroutes.py + translate_routes.py (on translate_seqcons.py / translate_enumcore.py: "
+                 "ast -> Gallina printer for get_routes of ArcBasedRoutingProblem; meaning of the emitted combinators -- "
+                 "while loops with fuel, list pop / item update, comprehensions, np.nonzero / np.array of tuples-or-None / "
+                 "np.flip / .T / np.lexsort as a stable sort: coq/theories/PyRoutes.v; vocabulary PyArcRoutes.v)")
     rng = ctx.rng
     nmax = 14 if ctx.quick else 16
     n_random = 260 if ctx.quick else 2500
